@@ -2,6 +2,8 @@ package rules
 
 import (
 	"golang.org/x/tools/go/ssa"
+
+	"mastcheck/ir"
 )
 
 // propEntries: the API surface of a property. A finding located in function fn
@@ -47,6 +49,9 @@ func (F *Facts) reachFromProp(p string) map[*ssa.Function]bool {
 func (c *Ctx) attribute(fn *ssa.Function, props []string) []string {
 	if fn == nil || c.Facts == nil {
 		return props
+	}
+	if fn.Pkg != nil && fn.Pkg.Pkg.Path() != ir.MastPath {
+		return props // backend packages are reached through the Persist interface, not through static calls
 	}
 	var out []string
 	for _, p := range props {
